@@ -143,12 +143,22 @@ Lemma get_unset_is_null : forall o fuel script name,
   fst (step o fuel (new_eval script) (OGetVar name)) = RGet VNull.
 Proof. reflexivity. Qed.
 
+(* SetVariable stores the value under the name without its legacy `$`; the script reads it
+   under the name as written, with or without the `$` *)
 Lemma script_reads_variable : forall o obj e name v,
-  scopes e = [] -> str_eqb name (trim_dollar name) = true ->
-  lookup o obj (env_set e name v) name = Ok v.
+  scopes e = [] ->
+  lookup o obj (env_set e (trim_dollar name) v) name = Ok v.
 Proof.
-  intros o obj e name v _ H. apply str_eqb_eq in H. unfold lookup.
-  rewrite <- H. rewrite set_get_same. reflexivity.
+  intros o obj e name v _. unfold lookup. rewrite set_get_same. reflexivity.
+Qed.
+
+(* the same through the API: after SetVariable name v the script reads v under that name *)
+Lemma script_reads_set_variable : forall o fuel obj e name v e1,
+  step o fuel e (OSetVar name v) = (RUnit, e1) ->
+  lookup o obj (eenv e1) name = Ok v.
+Proof.
+  intros o fuel obj e name v e1 H. cbn [step] in H. injection H as <-.
+  cbn [eenv]. unfold lookup. rewrite set_get_same. reflexivity.
 Qed.
 
 (* ------------------------------------------------------------------ *)
